@@ -3,6 +3,7 @@ package sim
 import (
 	"encoding/json"
 	"fmt"
+	"os"
 
 	"github.com/trustbloc/sidetree-go/pkg/jws"
 	"github.com/trustbloc/sidetree-go/pkg/patch"
@@ -249,8 +250,10 @@ func (wl *Wallet) build(stepIdx int, st *Step) *BuiltOp {
 	if op.Builder == "" {
 		op.Builder = "raw"
 	}
-	nextUpd := keyUse{Idx: st.NextUpd % len(w.Pool.Keys), Nonce: w.nonceFor(stepIdx, "upd", st.NonceUpd), Set: true}
-	nextRec := keyUse{Idx: st.NextRec % len(w.Pool.Keys), Nonce: w.nonceFor(stepIdx, "rec", st.NonceRec), Set: true}
+	viaClient := (st.Builder == "client" || st.Builder == "clientfn") && st.Fault == ref.FNone
+	// the Sidetree client derives next commitments from bare public keys: no nonce
+	nextUpd := keyUse{Idx: st.NextUpd % len(w.Pool.Keys), Nonce: w.nonceFor(stepIdx, "upd", st.NonceUpd && !viaClient), Set: true}
+	nextRec := keyUse{Idx: st.NextRec % len(w.Pool.Keys), Nonce: w.nonceFor(stepIdx, "rec", st.NonceRec && !viaClient), Set: true}
 	op.NextUpd, op.NextRec = nextUpd, nextRec
 
 	var sign keyUse
@@ -292,7 +295,21 @@ func (wl *Wallet) build(stepIdx int, st *Step) *BuiltOp {
 		suffix = ref.HashBytes(w.firstAlg(), []byte(fmt.Sprintf("never-created/%d/%d", wl.id, st.DID)))
 	}
 
-	patches, _ := w.resolvePatches(anyList(st.Patches)).([]any)
+	rawPatches := st.Patches
+	var content *clientContent
+	if op.Builder == "client" || op.Builder == "clientfn" {
+		c, ordered, ok := splitForClient(rawPatches, kind)
+		if kind == ref.Deactivate {
+			ok = true
+		}
+		if !ok || st.Fault != ref.FNone {
+			op.Builder = "lib"
+		} else {
+			content, rawPatches = c, ordered
+		}
+	}
+	clientBuilt := content != nil || ((op.Builder == "client" || op.Builder == "clientfn") && kind == ref.Deactivate)
+	patches, _ := w.resolvePatches(anyList(rawPatches)).([]any)
 	var from, until int64
 	if st.HasFrom {
 		from = st.From
@@ -307,8 +324,17 @@ func (wl *Wallet) build(stepIdx int, st *Step) *BuiltOp {
 		}
 	}
 	var origin any
-	if st.HasOrigin {
+	hasOrigin := st.HasOrigin
+	if hasOrigin {
 		origin = st.Origin
+	}
+	entityType := st.EntityType
+	if clientBuilt {
+		// the Sidetree client has no option for windows or entity type, and takes the anchor origin as a string
+		from, until, entityType = 0, 0, ""
+		if _, isStr := origin.(string); !isStr {
+			origin, hasOrigin = nil, false
+		}
 	}
 
 	tr := &op.Truth
@@ -331,7 +357,7 @@ func (wl *Wallet) build(stepIdx int, st *Step) *BuiltOp {
 
 	// ---- honest request as generic JSON (the raw builder's output, also the base for fault injection)
 	rb := &rawBuild{w: w, kind: kind, alg: alg, suffix: suffix, patches: patches, updCommit: tr.UpdCommit,
-		recCommit: tr.RecCommit, origin: origin, hasOrigin: st.HasOrigin, entityType: st.EntityType,
+		recCommit: tr.RecCommit, origin: origin, hasOrigin: hasOrigin, entityType: entityType,
 		from: from, until: until, sign: sign, kid: st.Kid, reveal: op.RevealValue}
 	if sign.Set {
 		rb.header = map[string]any{"alg": w.Pool.Get(sign.Idx).Type.Alg()}
@@ -341,6 +367,25 @@ func (wl *Wallet) build(stepIdx int, st *Step) *BuiltOp {
 	}
 
 	switch {
+	case clientBuilt:
+		b, err := wl.buildWithClient(st, rb, nextUpd, nextRec, content, op.Builder == "client")
+		if err != nil {
+			w.violate("C08/client-refused", string(kind), "sidetree.Client failed on a valid %s: %v", kind, err)
+			return nil
+		}
+		op.Bytes = b
+		rb.build() // the reference request
+		if kind == ref.Create {
+			// the DID is whatever the client's own request hashes to
+			if got, perr := ref.Parse(b); perr == nil {
+				if gm, ok := got.(map[string]any); ok {
+					if !ref.Equal(gm, rb.req) && os.Getenv("STSIM_DEBUG") != "" {
+						fmt.Fprintf(os.Stderr, "client create differs:\n got  %s\n want %s\n", ref.JCS(gm), ref.JCS(rb.req))
+					}
+					rb.req = gm
+				}
+			}
+		}
 	case st.Fault == ref.FNone && op.Builder == "lib":
 		b, err := wl.buildWithLibrary(st, rb, nextUpd, nextRec)
 		if err != nil {
@@ -359,6 +404,12 @@ func (wl *Wallet) build(stepIdx int, st *Step) *BuiltOp {
 
 	// the DID this request names
 	if kind == ref.Create {
+		if rb.req == nil {
+			// built by the library: the DID is whatever the request it produced hashes to (reference hash)
+			if got, perr := ref.Parse(op.Bytes); perr == nil {
+				rb.req, _ = got.(map[string]any)
+			}
+		}
 		sd, _ := rb.req["suffixData"].(map[string]any)
 		if sd != nil {
 			tr.Suffix = ref.ModelHash(w.firstAlg(), sd)
@@ -370,8 +421,13 @@ func (wl *Wallet) build(stepIdx int, st *Step) *BuiltOp {
 	}
 	op.Honest = st.Fault == ref.FNone
 
-	// ---- the wallet's own bookkeeping (its view of which keys are committed)
-	switch faultEffect(kind, st.Fault) {
+	// ---- the wallet's own bookkeeping (its view of which keys are committed); a look-alike signed with an
+	// explicitly chosen key is somebody else's operation and changes nothing here
+	effect := faultEffect(kind, st.Fault)
+	if st.SignKey > 0 {
+		effect = "none"
+	}
+	switch effect {
 	case "full":
 		switch kind {
 		case ref.Create:
